@@ -1,9 +1,12 @@
 (* C02_Spec.v — what the property demands, written from the property text, service.proto and
    docs/testing_servers.md; independent of how the generator, the handlers and the clients are coded.
 
-   1. The verdict: for a well-formed test case of the deterministic fragment the result the runner expects and the
-      result the client reports AGREE in the sense of C03_Spec.agree (equivalently, by C03's assert_iff, results.go's
-      assert records nothing), for every pair of reference peers.
+   1. The verdict: for a well-formed test case of the deterministic fragment and every permutation of it (the codec
+      and the compression of the config case it is expanded under) the result the runner expects FOR THAT
+      PERMUTATION and the result the client reports AGREE in the sense of C03_Spec.agree (equivalently, by C03's
+      assert_iff, results.go's assert records nothing), for every pair of reference peers that runs the case.
+      Connect GET cases (IdempotentUnary with use_get_http_method) are inside this statement: their expectation
+      depends on the permutation's codec (the echoed query param "encoding").
    2. Robustness: deriving expectations and loading a suite never crash; they return a result or an error.
    3. What is assumed of the RPC libraries and HTTP between the peers (connect-go, grpc-go, net/http): the
       TRANSPORT HYPOTHESES below.  They are hypotheses of the theorems, not theorems; every check run samples them
@@ -14,14 +17,26 @@ Open Scope N_scope.
 (* ---------- the four peer pairs ---------- *)
 Inductive server_impl := RefServer | GrpcServer.
 Inductive client_impl := RefClient | GrpcClient.
-Definition server_of (s : server_impl) := match s with RefServer => ref_server | GrpcServer => grpc_server end.
+Definition server_of (s : server_impl) := match s with RefServer => ref_server | GrpcServer => grpc_server_q end.
 Definition client_of (c : client_impl) := match c with RefClient => ref_client | GrpcClient => grpc_client end.
 
 (* ---------- transport hypotheses ---------- *)
 (* names (lower case) a response sets as header or as trailer *)
 Definition all_names (w : wire) : list bytes := map lname (w_headers w) ++ map lname (w_trailers w).
 
-Record transport_ok (tr_req : list header -> list header) (tr_rsp : wire -> wire) : Prop := {
+(* Connect protocol, unary GET requests: the query string carries "encoding" = the name of the codec the message
+   param is encoded with, and "connect" = "v1" (next to "message" and, as the case may be, "base64" and
+   "compression", of which nothing is required here).  Codec enum: 1 proto, 2 json. *)
+Definition codec_param (codec : N) : bytes := if codec =? 1 then bs "proto" else bs "json".
+Definition connect_get_params (codec : N) : list header :=
+  [mkH (bs "connect") [bs "v1"]; mkH (bs "encoding") [codec_param codec]].
+Definition known_codec (codec : N) : Prop := codec = 1 \/ codec = 2.
+
+Record transport_ok (tr_req : list header -> list header) (tr_query : bool -> N -> N -> list header)
+       (tr_rsp : wire -> wire) : Prop := {
+  (* a call that goes out as a Connect GET under a codec and a compression: the handler sees the params the
+     protocol prescribes (possibly among others); nothing is assumed of the query of any other call *)
+  tk_query : forall codec comp, known_codec codec -> included (connect_get_params codec) (tr_query true codec comp);
   (* the handler sees every header the client set: under its name (case-insensitively), values in order, possibly
      joined or split at commas, possibly among other headers *)
   tk_req : forall hs, wf_headers hs = true -> included hs (tr_req hs);
@@ -39,14 +54,22 @@ Record transport_ok (tr_req : list header -> list header) (tr_rsp : wire -> wire
                        /\ same_values (all_vals (w_headers w) n ++ all_vals (w_trailers w) n) vs }.
 
 (* ---------- 1. the verdict ---------- *)
-Definition passes tr_req tr_rsp (sv : server_impl) (cl : client_impl) (tc : tcase) (e : result) : Prop :=
-  agree (case_def tc) e (observed tr_req tr_rsp (server_of sv) (client_of cl) tc).
+(* which pairs run a case: a Connect GET case runs under the Connect protocol only, which the grpc-go peers do not
+   speak ("the gRPC reference peers give the same verdict wherever they apply") *)
+Definition peers_apply (sv : server_impl) (cl : client_impl) (tc : tcase) : Prop :=
+  t_get tc = true -> sv = RefServer /\ cl = RefClient.
 
+Definition passes tr_req tr_query tr_rsp (sv : server_impl) (cl : client_impl) (codec comp : N) (tc : tcase) (e : result) : Prop :=
+  agree (case_def tc) e (observed tr_req tr_query tr_rsp (server_of sv) (client_of cl) codec comp tc).
+
+(* [e] is the expectation derived for the permutation under [codec]; the run is the one under the same [codec]
+   (and any compression) *)
 Definition expectation_met_statement : Prop :=
-  forall tr_req tr_rsp, transport_ok tr_req tr_rsp ->
-  forall tc e, wf tc = true -> fd_immediate_error_multi tc = false -> expected tc = Ok e ->
-  forall sv cl, passes tr_req tr_rsp sv cl tc e.
+  forall tr_req tr_query tr_rsp, transport_ok tr_req tr_query tr_rsp ->
+  forall tc codec comp e, wf tc = true -> fd_immediate_error_multi tc = false -> known_codec codec ->
+  expected codec tc = Ok e ->
+  forall sv cl, peers_apply sv cl tc -> passes tr_req tr_query tr_rsp sv cl codec comp tc e.
 
 (* ---------- 2. robustness ---------- *)
-Definition expected_total_statement : Prop := forall tc, expected tc <> Crash.
-Definition load_total_statement : Prop := forall tcs, load tcs <> Crash.
+Definition expected_total_statement : Prop := forall codec tc, expected codec tc <> Crash.
+Definition load_total_statement : Prop := forall codecs tcs, load codecs tcs <> Crash.
